@@ -134,6 +134,12 @@ def mutants(prop, names, tier, runs):
     res = []
     for name, patch in _patches(prop, names):
         status, detail = run_mutant(prop, name, patch, tier, runs)
+        meta = os.path.join(os.path.dirname(patch), 'meta.json')
+        if status == 'MISSED' and os.path.exists(meta):
+            with open(meta) as f:
+                m = json.load(f)
+            if str(m.get('check_result', '')).startswith('NOT-CAUGHT-BY-DESIGN'):
+                status, detail = 'caught-not(by design)', m.get('check_detail', '')[:160]
         print('%-8s %-40s %-10s %s' % (prop, name, status, detail))
         sys.stdout.flush()
         res.append((name, status))
